@@ -515,8 +515,276 @@ func vMsRealRun(t *testing.T) {
 	wg.Wait()
 }
 
+// ---------------------------------------------------------------------------------------------------------------------
+// mode msupd — an UPDATE (flag 0x02) or a RE-LOCK (same LockId, Rcount) gives a hold new terms while the hold's expiry entry sits in
+// one of the four places an entry can be: the second wheel, the long table, parked in the millisecond table, or handed over from the
+// millisecond table to the second wheel. New terms in either unit. C06: the hold ends no earlier than the NEW terms say (measured from
+// the update) and not later than the bound; C17: nothing is left behind once everything has ended. Monitors only (no model line):
+// virtual server clock, real wall clock for the millisecond stage, as in msw.
+
+type vMsTerm struct {
+	ms  bool
+	val int
+}
+
+func (t vMsTerm) String() string {
+	if t.ms {
+		return fmt.Sprintf("%dms", t.val)
+	}
+	return fmt.Sprintf("%ds", t.val)
+}
+
+func (t vMsTerm) eflag() uint16 {
+	if t.ms {
+		return 0x400
+	}
+	return 0
+}
+
+type vMsUpdCase struct {
+	key         int
+	place, what string
+}
+
+func vMsUpdRun(t *testing.T) {
+	out := vOpen("msupd")
+	defer out.close()
+	seed := int64(vEnvInt("VERIF_SEED", 1))
+	r := rand.New(rand.NewSource(seed))
+	n := vEnvInt("VERIF_N", 24)
+	vFastPark = true
+	v := vNewSeq(2, 0xff)
+	rec := &vMsRec{got: map[int][]vMsReply{}}
+	v.onReply = func(rp vReply) { rec.add(rp.req, rp.result) }
+	kc0 := v.counters().KeyCount
+	var done []vMsUpdCase
+	bases := []struct {
+		name string
+		term vMsTerm
+		long bool
+	}{{"second-wheel", vMsTerm{false, 6}, false}, {"long-table", vMsTerm{false, 400}, true}, {"ms-parked", vMsTerm{true, 400}, false}, {"ms-handed-over", vMsTerm{true, 6150}, false}}
+	news := []vMsTerm{{true, 60}, {true, 900}, {true, 3200}, {true, 30000}, {false, 2}, {false, 5}, {false, 300}}
+	req, key := 50000, 50000
+	only := vEnvInt("VERIF_MSUPD_CASE", -1)
+	for i := 0; i < n; i++ {
+		ci := i
+		if only >= 0 {
+			ci = only
+		}
+		// 4 places x 2 ops x 7 new terms = 56 combinations, visited with a stride so that a short run already mixes them
+		idx := (ci*11 + int(seed)) % (len(bases) * 2 * len(news))
+		b := bases[idx%len(bases)]
+		relock := (idx/len(bases))%2 == 1
+		nw := news[idx/(2*len(bases))]
+		key++
+		req += 4
+		opName := map[bool]string{false: "update", true: "re-lock"}[relock]
+		replay := map[string]interface{}{"mode": "msupd", "case": ci, "seed": seed, "base": b.name + " " + b.term.String(), "op": opName, "new": nw.String()}
+		tGrant := time.Now()
+		_ = v.conns[0].ProcessLockCommand(&protocol.LockCommand{Command: protocol.Command{Magic: protocol.MAGIC, Version: protocol.VERSION, CommandType: protocol.COMMAND_LOCK, RequestId: vId16(req)},
+			LockId: vId16(req), LockKey: vId16(key), ExpriedFlag: b.term.eflag(), Expried: uint16(b.term.val), Rcount: 3})
+		ticks0 := 0
+		switch b.name {
+		case "long-table":
+			for k := 0; k < 60; k++ {
+				v.tick()
+				ticks0++
+				if hs := v.keySnap(key).holds; len(hs) == 1 && hs[0].long {
+					break
+				}
+			}
+		case "ms-parked":
+			time.Sleep(time.Duration(40+r.Intn(60)) * time.Millisecond)
+		case "ms-handed-over":
+			time.Sleep(220 * time.Millisecond)
+			for w := 0; w < 300 && vMsPending(v.db); w++ {
+				time.Sleep(10 * time.Millisecond)
+			}
+			v.tick()
+			ticks0++
+		default:
+			v.tick()
+			ticks0++
+		}
+		hs := v.keySnap(key).holds
+		if len(hs) != 1 {
+			out.stat("base-hold-gone")
+			continue
+		}
+		place := b.name
+		if b.long != hs[0].long {
+			place += "(not-as-intended)"
+		}
+		flag := uint8(0)
+		if !relock {
+			flag = protocol.LOCK_FLAG_UPDATE_WHEN_LOCKED
+		}
+		// every other update changes Rcount as well, so that the "same terms" shortcut cannot apply and the update really moves the entry
+		rc2 := uint8(3)
+		if !relock && r.Intn(2) == 0 {
+			rc2 = 4
+			opName = "update(+Rcount)"
+			replay["op"] = opName
+		}
+		tOp := time.Now()
+		_ = v.conns[0].ProcessLockCommand(&protocol.LockCommand{Command: protocol.Command{Magic: protocol.MAGIC, Version: protocol.VERSION, CommandType: protocol.COMMAND_LOCK, RequestId: vId16(req + 1)},
+			Flag: flag, LockId: vId16(req), LockKey: vId16(key), ExpriedFlag: nw.eflag(), Expried: uint16(nw.val), Rcount: rc2})
+		opReplies := rec.get(req + 1)
+		if len(opReplies) != 1 || (opReplies[0].result != 0 && opReplies[0].result != int(protocol.RESULT_LOCKED_ERROR)) {
+			out.stat("op-refused")
+			_ = v.conns[0].ProcessLockCommand(vMsCmd(protocol.COMMAND_UNLOCK, req+2, req, key, 0, 0, 0, 0))
+			continue
+		}
+		what := fmt.Sprintf("hold whose expiry entry was in place `%s` (granted with %s) and was given %s by a %s", place, b.term, nw, opName)
+		done = append(done, vMsUpdCase{key, b.name, what})
+		release := func() {
+			_ = v.conns[0].ProcessLockCommand(&protocol.LockCommand{Command: protocol.Command{Magic: protocol.MAGIC, Version: protocol.VERSION, CommandType: protocol.COMMAND_UNLOCK, RequestId: vId16(req + 2)},
+				LockId: vId16(req), LockKey: vId16(key)})
+		}
+		// cause (a): the update was answered but nothing changed (the "same terms" shortcut). The statement lets an update be ignored when it
+		// would move the deadline by at most one unit, and gives a shortened hold 10 s: anything else ignored is a violation.
+		if hs2 := v.keySnap(key).holds; !relock && len(hs2) == 1 && hs2[0].req == req && hs2[0].expT == hs[0].expT {
+			// what is left of the old terms, what the new terms give, in ms (second-unit deadlines carry the code's +1)
+			oldRem := (hs[0].expT - v.db.currentTime - 1) * 1000
+			slack := int64(1000)
+			if b.name == "ms-parked" {
+				oldRem = int64(b.term.val) - int64(tOp.Sub(tGrant)/time.Millisecond)
+				slack = 5
+			}
+			newMs := int64(nw.val) * 1000
+			if nw.ms {
+				newMs = int64(nw.val)
+			}
+			detail := fmt.Sprintf("%s: answered %d, but the hold keeps its old command and deadline (≈%d ms left; the new terms give %d ms)", what, opReplies[0].result, oldRem, newMs)
+			switch {
+			case newMs > oldRem+slack && nw.ms:
+				out.monitor("C06:update-ignored:millisecond-terms:lengthening", detail, replay)
+			case oldRem > newMs+10000+slack && nw.ms:
+				out.monitor("C06:update-ignored:millisecond-terms:shortening", detail, replay)
+			case newMs > oldRem+2000 || oldRem > newMs+12000:
+				out.monitor("C06:update-ignored", detail, replay)
+			}
+			out.stat("update-ignored:" + b.name)
+			release()
+			continue
+		}
+		ended := func() (vMsReply, bool) {
+			for _, q := range []int{req, req + 1} {
+				for _, g := range rec.get(q) {
+					if g.result == protocol_RESULT_EXPRIED {
+						return g, true
+					}
+				}
+			}
+			return vMsReply{}, false
+		}
+		// real-time phase: as long as any park (the old entry's or a new one) can still end, + margin
+		wall := 150
+		if b.term.ms {
+			wall += b.term.val % 3000
+		}
+		if nw.ms {
+			if p := nw.val%3000 + 150; p > wall {
+				wall = p
+			}
+		}
+		var g vMsReply
+		ok := false
+		for dl := tOp.Add(time.Duration(wall) * time.Millisecond); time.Now().Before(dl); time.Sleep(time.Millisecond / 2) {
+			if g, ok = ended(); ok {
+				break
+			}
+		}
+		for w := 0; !ok && w < 300 && vMsPending(v.db); w++ {
+			time.Sleep(10 * time.Millisecond)
+			g, ok = ended()
+		}
+		if os.Getenv("VERIF_MSUPD_DEBUG") != "" {
+			df, _ := os.OpenFile(os.Getenv("VERIF_OUT")+"/msupd.debug", os.O_APPEND|os.O_CREATE|os.O_WRONLY, 0o644)
+			fmt.Fprintf(df, "DEBUG case %d %s %s -> %s: after wall phase ended=%v pending=%v snap=%+v replies=%v %v\n", ci, b.name, opName, nw, ok, vMsPending(v.db), v.keySnap(key), rec.get(req), rec.get(req+1))
+			df.Close()
+		}
+		// bounds from the NEW terms, in whole seconds of server time: never before E; by E + 2 s, or within 10 s of the new deadline when
+		// the new terms shortened the hold
+		newSec := nw.val
+		if nw.ms {
+			newSec = (nw.val + 999) / 1000
+		}
+		bound := newSec + 2
+		if v.db.currentTime+int64(newSec)+1 < hs[0].expT {
+			bound = newSec + 10
+		}
+		maxTicks := bound + 1
+		if maxTicks > 14 {
+			maxTicks = 7
+		}
+		ticks := 0
+		for !ok && ticks < maxTicks {
+			v.tick()
+			ticks++
+			g, ok = ended()
+		}
+		if ok {
+			elMs := int(g.at.Sub(tOp) / time.Millisecond)
+			early := false
+			if nw.ms {
+				// wall time only counts while no virtual second has passed; each tick is one second of server time
+				early = ticks == 0 && elMs < nw.val-2 || ticks > 0 && ticks < nw.val/1000
+			} else {
+				early = ticks < nw.val
+			}
+			if early {
+				out.monitor("C06:early:after-update:"+b.name, fmt.Sprintf("%s ended after %d ms of wall time and %d s of server time, before its new terms allow", what, elMs, ticks), replay)
+			}
+			if ticks > bound {
+				out.monitor("C06:late:after-update:"+b.name, fmt.Sprintf("%s ended only after %d s of server time (bound %d)", what, ticks, bound), replay)
+			}
+			out.stat("ended:" + b.name)
+		} else {
+			if maxTicks > bound {
+				out.monitor("C06:late:after-update:"+b.name, fmt.Sprintf("%s did not end within %d s of server time (bound %d)", what, ticks, bound), replay)
+			}
+			out.stat("outlived:" + b.name)
+			release()
+		}
+		if n := len(rec.get(req)) + len(rec.get(req+1)); ok && n != 3 {
+			out.monitor("C06:ms-reply-count:after-update", fmt.Sprintf("%s: %d replies under its two RequestIds (grant, update answer, one EXPRIED expected): %v %v", what, n, rec.get(req), rec.get(req+1)), replay)
+		}
+		out.stat(opName)
+		out.stat("new:" + nw.String())
+	}
+	// C17: everything has ended or was released: after the parks and 20 s of server time no key record may be left
+	for w := 0; w < 400 && vMsPending(v.db); w++ {
+		time.Sleep(10 * time.Millisecond)
+	}
+	for k := 0; k < 20; k++ {
+		v.tick()
+	}
+	for w := 0; w < 400 && vMsPending(v.db); w++ {
+		time.Sleep(10 * time.Millisecond)
+	}
+	// key records whose last reference was dropped by a park goroutine are removed by a deferred pass (checkWaitRemoveLockManager, one of
+	// the parked background loops): run it the way Close does
+	v.db.managerGlocks[0].Lock()
+	v.db.flushWaitRemoveLockManagerQueue(0)
+	v.db.managerGlocks[0].Unlock()
+	left := map[string][]string{}
+	for _, c := range done {
+		if v.keySnap(c.key).exists {
+			left[c.place] = append(left[c.place], c.what)
+		}
+	}
+	for place, ws := range left {
+		out.monitor("C17:key-record-left:after-update:"+place, fmt.Sprintf("%d key record(s) still exist after the hold has ended or was released, the parks are over and 20 s of server time passed; first: %s", len(ws), ws[0]), map[string]interface{}{"mode": "msupd", "seed": seed})
+	}
+	if kc := v.counters().KeyCount; kc != kc0 && len(left) == 0 {
+		out.monitor("C17:keycount-after-drain:millisecond-update", fmt.Sprintf("KeyCount is %d (baseline %d) after every updated hold has ended or was released and 20 s passed", kc, kc0), map[string]interface{}{"mode": "msupd", "seed": seed})
+	}
+}
+
 func init() {
 	vModes["msw"] = vMswRun
 	vModes["msreal"] = vMsRealRun
 	vModes["mswf"] = vMswFollower
+	vModes["msupd"] = vMsUpdRun
 }
